@@ -154,7 +154,27 @@ EXTRA5 = {
     'C15': 'Several pairs compared through one message object (check_files): each artefact holds lines of its own pair only (ARTEFACTS).',
     'C19': 'The pytest listing names a tagged method\'s class once (PYTABLE).',
 }
+EXTRA6 = {
+    'C01': 'The verifiers return the documented verdict when the date statistic arrives in the backend\'s own form (VERDICT, shared with C02).',
+    'C02': 'Verifying leaves the constraint lists as given (KEEPS); the tabular form never reads the report option (FRAMEALL); no calc_* statistic is taken with a tolerance (EXACTSTAT).',
+    'C04': 'A final line of blanks is a line (ORACLE); both files of a pair are opened with one encoding (SAMEENC).',
+    'C05': 'Whether a reference is rewritten follows the flag of its kind, False included (KINDFLAG).',
+    'C06': 'detected() returns the detection frame whenever there is one (DETECTED); the detection frame is built on a copy of the input index (INPLACE).',
+    'C07': 'Null counts are COUNT queries on every path (COUNTED); date bounds are written with every digit (WRITTEN).',
+    'C08': 'The base verifiers fed with SQL statistics return the documented verdicts (VERDICT).',
+    'C09': 'A constraint set that was verified with still holds what it was loaded with (KEEPS).',
+    'C10': 'Regeneration follows the flag of the kind (KINDFLAG); actual and reference are decoded alike, so a regenerated reference passes (SAMEENC).',
+    'C11': 'Directories are created only where none exists (MKDIRSAFE).',
+    'C12': 'File kinds do not depend on the capitalisation of the extension (FILEKIND).',
+    'C14': 'Size keeps every parameter it is given, False and 0 included (SIZE); merged variable-length fragments do not depend on example order (EXTRACT).',
+    'C15': 'A second failure under the same names leaves nothing of a longer first one (ARTEFACTS, history); blanks excused by strip options do not show in the post-processed pair.',
+    'C16': 'A CSV file with a dotted name is read with its own metadata (OWNMETA).',
+    'C17': 'Without a constraints argument the .tdda file next to the data is used (DEFAULTTDDA); row numbers are positional (ALIGNED).',
+    'C19': 'Same-named classes of different modules are each listed (PYTABLE).',
+}
 for _k, _t in EXTRA4.items():
+    CLAIMS[_k]['text'] = CLAIMS[_k]['text'].rstrip() + ' ' + _t
+for _k, _t in EXTRA6.items():
     CLAIMS[_k]['text'] = CLAIMS[_k]['text'].rstrip() + ' ' + _t
 for _k, _t in EXTRA5.items():
     CLAIMS[_k]['text'] = CLAIMS[_k]['text'].rstrip() + ' ' + _t
